@@ -150,13 +150,13 @@ def extreme_schemas(tier):
                         s.update(type="object", title="Obj")
                     out.append(s)
     # pairs of extreme atoms (distinct keywords)
-    pair_pool = atoms if tier == "thorough" else atoms[::3]
+    pair_pool = atoms if tier == "thorough" else atoms[::4]
     for a, b in itertools.combinations(pair_pool, 2):
         if set(a) & set(b):
             continue
         out.append({**a, **b})
     # nested once under the usual sub-schema positions
-    for a in atoms[:: (1 if tier == "thorough" else 2)]:
+    for a in atoms[:: (1 if tier == "thorough" else 3)]:
         for w in ("items", "properties.a", "additionalProperties", "anyOf0", "oneOf0", "allOf0", "not", "contains"):
             out.append(A.wrap(w, a))
     return out
